@@ -521,6 +521,8 @@ func (m *Machine) exec(fr *frame, s Stmt) ctrl {
 		return ctrlContinue
 	case Emit:
 		m.emit(fr, s)
+	case FuncStmt:
+		fr.env.declare(s.Decl.Name, &FuncV{Decl: s.Decl, Env: fr.env, Self: fr.self})
 	case Panic:
 		fail(FailPanic)
 	case Destroy:
